@@ -271,7 +271,8 @@ theorem Resp.putLoop (chunks : List (Nat × Bytes)) (maxPairs endIdx : Nat) :
   | cons s rest ih => intro st; unfold Fs.Dos3x.putLoop; resp_using (ih _)
 macro_rules | `(tactic| resp_step) => `(tactic| exact Resp.putLoop _ _ _ _ _)
 
-theorem Resp.writeFile (f : FImg) : Resp (writeFile f) := by
+/-- for EVERY repair variant `rp` (the source as written, and the source with `slotFirst` — HEAD since f61df96) -/
+theorem Resp.writeFile (f : FImg) (rp : Repairs := {}) : Resp (writeFile f rp) := by
   unfold Fs.Dos3x.writeFile
   resp
 
